@@ -139,6 +139,14 @@ let run_case (line : string) : string =
   let toks = ref (split_ws line) in
   match next toks with
   | "rl_enc" -> let rl = rd_rl toks in guard (ok_rl rl) (fun () -> pr_toks (rl_to_strings rl))
+  | "rl_new" ->
+    let rl = rd_rl toks in
+    guard (ok_rl rl) (fun () ->
+        match compact_idx rl with
+        | CDone l -> "ok " ^ pr_rl l
+        | CPanicOverflow -> "panic attempt to add with overflow"
+        | CPanicExpect -> "panic RangeList::compact"
+        | CFuel -> "MODEL-OUT-OF-FUEL")
   | "rl_try" -> pr_res (fun (rl, _) -> pr_rl rl) (parse_range_list (split_on (n_of_int 32) (tokv toks)))
   | "mm_enc" -> let m = rd_mm toks in guard (le64 m.mm_epoch) (fun () -> pr_toks (mm_to_strings m))
   | "mm_dec" -> pr_res (with_rest pr_mm) (parse_mig_meta (rd_toks toks))
